@@ -875,11 +875,21 @@ def fault_cases(draw):
         # odd number of cells across the cut and the default position 0.5: an atomic plane can sit exactly on the fault plane
         mults[ci] = draw(st.sampled_from([1, 3, 5, 3]))
         even = False
+    vacuum = draw(_vac) if draw(_int10) < 2 else None
+    keep_mults = draw(_int10) < 9
+    if draw(_int10) < 2:
+        # constructive sub-class for the boundary itself: one atomic plane per lattice period, odd number of cells, default
+        # fault position 0.5 -> (whenever periods x cells is odd) an atomic plane sits exactly on the fault plane
+        u = dict(u, atoms=[u['atoms'][0]], types=[1])
+        fmode, even, minwidth, vacuum, keep_mults = 'default', False, None, None, True
+        mults[ci] = draw(st.sampled_from([1, 3, 5, 3]))
+        if sh['kind'] in ('default', 'lattice'):
+            sh = {'kind': 'a12', 'a1': draw(_frac15), 'a2': draw(_frac15)}
     return {'ucell': u, 'hkl': hkl, 'cut': cut,
-            'sizemults': mults if draw(_int10) < 9 else None,
+            'sizemults': mults if keep_mults else None,
             'minwidth': minwidth,
             'even': even,
-            'vacuum': draw(_vac) if draw(_int10) < 2 else None,
+            'vacuum': vacuum,
             'shiftsel': draw(st.integers(0, 1000)),
             'fpos': {'mode': fmode,
                      'where': draw(st.sampled_from(['surface', 'fault'])),
@@ -1144,7 +1154,7 @@ CLAUSES = [
                 'minwidth/even/sizemults, vacuum lengthens the cut vector only, surfacearea'),
     Clause('fault', oracle_fault, fault_cases, quick=600, thorough=10000,
            min_share={'nt': 0.2, 'built': 0.4, 'shifted': 0.3, 'both_sides': 0.35, 'lattice_nonzero': 0.05, 'custom_avect': 0.1,
-                      'onplane_exact': 0.01, 'itermap': 0.07, 'refusal_avect': 0.025, 'kind_faultshift': 0.03, 'fpos_rel': 0.12,
+                      'onplane_exact': 0.015, 'itermap': 0.07, 'refusal_avect': 0.025, 'kind_faultshift': 0.03, 'fpos_rel': 0.12,
                       'a1_only': 0.06, 'centred': 0.12},
            max_share={'refusal_search': 0.25, 'refusal_cut': 0.4, 'c04_filtering_skip': 0.02},
            desc='StackingFault.fault: atoms not above the plane stay, atoms above move by a1*a1vect + a2*a2vect + outofplane (or the '
